@@ -21,6 +21,7 @@ import (
 	"fmt"
 	"math/rand"
 	"net"
+	"os"
 	"sort"
 	"strconv"
 	"strings"
@@ -28,6 +29,8 @@ import (
 	"sync/atomic"
 	"testing"
 	"time"
+
+	"github.com/BurntSushi/toml"
 )
 
 const (
@@ -100,14 +103,66 @@ func vlcKind(c cache) (string, int) {
 func vlcBool(m map[string]any, k string) bool { b, _ := m[k].(bool); return b }
 func vlcInt(m map[string]any, k string) int   { f, _ := m[k].(float64); return int(f) }
 
+// The station is configured through its TOML file.  The shipped cmd/application/app_config.toml is taken as it is, the
+// values of its four liveness-cache keys (recognised by what they say: capacity or not, non-live or not - not by a
+// spelling this driver would have to copy from the struct tags) are replaced, and the text is decoded the way
+// lib.ParseConfig decodes it: lib.Config embeds *RegConfig, which embeds *liveness.Config.
+type VlcRegConfig struct{ *Config }
+type VlcStationConfig struct{ *VlcRegConfig }
+
+var vlcShippedOnce sync.Once
+var vlcShipped []string
+var vlcTomlBuilt int64
+
+func vlcConfigured(cfg map[string]any) (*Config, error) {
+	vlcShippedOnce.Do(func() {
+		b, err := os.ReadFile("../../../cmd/application/app_config.toml")
+		if err == nil {
+			vlcShipped = strings.Split(string(b), "\n")
+		}
+	})
+	if vlcShipped == nil {
+		return nil, fmt.Errorf("shipped app_config.toml not found")
+	}
+	seen := map[string]bool{}
+	lines := []string{}
+	for _, l := range vlcShipped {
+		k := strings.TrimSpace(strings.SplitN(l, "=", 2)[0])
+		if strings.HasPrefix(k, "cache_") && strings.Contains(l, "=") {
+			capacity, nonlive := strings.Contains(k, "capacity"), strings.Contains(k, "non")
+			which := map[[2]bool]string{{false, false}: "ll", {true, false}: "lc", {false, true}: "nl", {true, true}: "nc"}[[2]bool{capacity, nonlive}]
+			seen[which] = true
+			switch which {
+			case "ll", "nl":
+				if !vlcBool(cfg, which) {
+					continue // key absent: no caching of that verdict
+				}
+				l = fmt.Sprintf("%s = %q", k, map[string]string{"ll": vlcLiveDur, "nl": vlcNonLiveDur}[which])
+			default:
+				l = fmt.Sprintf("%s = %d", k, vlcInt(cfg, which))
+			}
+		}
+		lines = append(lines, l)
+	}
+	if len(seen) != 4 {
+		return nil, fmt.Errorf("shipped app_config.toml: liveness-cache keys found: %v", seen)
+	}
+	var sc VlcStationConfig
+	if _, err := toml.Decode(strings.Join(lines, "\n"), &sc); err != nil {
+		return nil, err
+	}
+	atomic.AddInt64(&vlcTomlBuilt, 1)
+	if sc.VlcRegConfig == nil || sc.VlcRegConfig.Config == nil {
+		return &Config{}, nil
+	}
+	return sc.VlcRegConfig.Config, nil
+}
+
 // vlcNew builds the real tester from the real constructor for the abstract configuration [ll, lc, nl, nc]
 func vlcNew(cfg map[string]any) (*vlcWorld, map[string]any, error) {
-	c := &Config{CacheCapacity: vlcInt(cfg, "lc"), CacheCapacityNonLive: vlcInt(cfg, "nc")}
-	if vlcBool(cfg, "ll") {
-		c.CacheDuration = vlcLiveDur
-	}
-	if vlcBool(cfg, "nl") {
-		c.CacheDurationNonLive = vlcNonLiveDur
+	c, err := vlcConfigured(cfg)
+	if err != nil {
+		return nil, nil, err
 	}
 	t, err := New(c)
 	if err != nil {
